@@ -548,9 +548,15 @@ async def prepare_ft_async(kind: str, fn_spec: dict, ft_spec: dict, fn_name="fut
 
 
 async def run_ft_async(function_test):
+    """run_function_test; a crash inside the Function under test is re-raised as FunctionRaised"""
     from koreo.function_test.run import run_function_test
 
-    return await run_function_test(location="verif", function_test=function_test)
+    try:
+        return await run_function_test(location="verif", function_test=function_test)
+    except Exception as e:
+        if raised_in_runner(e):
+            raise
+        raise FunctionRaised(f"{type(e).__name__}: {e}") from e
 
 
 @contextlib.contextmanager
@@ -589,6 +595,22 @@ def observe():
         yield log
     finally:
         ftrun.reconcile_value_function, ftrun.reconcile_resource_function = orig_v, orig_r
+
+
+class FunctionRaised(Exception):
+    """the Function under test itself raised (reconcile code, not the runner): outside C18/C19"""
+
+
+def raised_in_runner(exc: BaseException) -> bool:
+    """True if the innermost koreo frame of the traceback is the FunctionTest runner's own code"""
+    tb = exc.__traceback__
+    last_koreo = None
+    while tb is not None:
+        fn = tb.tb_frame.f_code.co_filename.replace("\\", "/")
+        if "/koreo/" in fn:
+            last_koreo = fn
+        tb = tb.tb_next
+    return last_koreo is None or "/function_test/" in last_koreo
 
 
 # --------------------------------------------------------------------------- observations -> wire
